@@ -28,12 +28,51 @@ class Recorder:
         return f
 
 
+class ReentrantDelegate:
+    """delegated-mode application (docs/api.rst "Delegated mode"): records every wormhole_* callback under the name of the
+    W.* call that produced it and, per `policy` {W-method: 'close' | 'send'}, calls back into the real _DelegatedWormhole
+    (w.close() / w.send_message()) synchronously from inside the callback"""
+    NAMES = {"wormhole_got_welcome": "got_welcome", "wormhole_got_code": "got_code", "wormhole_got_unverified_key": "got_key",
+             "wormhole_got_verifier": "got_verifier", "wormhole_got_versions": "got_versions",
+             "wormhole_got_message": "received", "wormhole_closed": "closed"}
+
+    def __init__(self, world, policy):
+        self.world = world
+        self.policy = dict(policy)
+        self.calls = []
+        self.reentered = []
+
+    def __getattr__(self, name):
+        if name not in self.NAMES:
+            raise AttributeError(name)
+        meth = self.NAMES[name]
+
+        def f(*a):
+            w = self.world
+            self.calls.append((meth, a))
+            w.on_w_call(meth, a)
+            act = self.policy.get(meth)
+            if meth == "closed" or act is None or w.api_closed:
+                return
+            self.reentered.append((meth, act))
+            if act == "send":
+                w.dw.send_message(b"re")
+            elif act == "close":
+                w.api_closed = True
+                w.dw.close()
+        return f
+
+
 class FakeWS:
-    def __init__(self):
+    def __init__(self, world=None):
         self.sent = []
+        self.world = world
 
     def sendMessage(self, payload, is_binary):
-        self.sent.append(json.loads(payload.decode("utf-8")))
+        m = json.loads(payload.decode("utf-8"))
+        self.sent.append(m)
+        if self.world is not None:
+            self.world.on_sent(m)
 
 
 class StubService:
@@ -62,7 +101,7 @@ class StubService:
 
 
 class World:
-    def __init__(self, defer_stop=False):
+    def __init__(self, defer_stop=False, policy=None):
         import wormhole._rendezvous as rz
         from wormhole._boss import Boss
         from wormhole.eventual import EventualQueue
@@ -70,15 +109,34 @@ class World:
         from wormhole.timing import DebugTiming
         self.defer_stop = defer_stop
         self.errors = []          # (kind, detail) observed internal failures
-        self.W = Recorder()
+        self.policy = policy
+        self.post = []            # (name, detail): violated event-order / close-down requirements (delegated runs)
+        self.claimed_maybe = self.opened_maybe = False
+        self.all_sent = []
+        if policy is None:
+            self.W = self.dw = Recorder()
+        else:
+            from wormhole.wormhole import _DelegatedWormhole
+            self.W = ReentrantDelegate(self, policy)
+            self.dw = _DelegatedWormhole(self.W)
         self.clock = task.Clock()
         orig = rz.internet.ClientService
         rz.internet.ClientService = StubService
         try:
-            self.boss = Boss(self.W, "side1", "ws://127.0.0.1:1/v1", "appid", {}, ("python", "v"), self.clock,
+            self.boss = Boss(self.dw, "side1", "ws://127.0.0.1:1/v1", "appid", {}, ("python", "v"), self.clock,
                              EventualQueue(self.clock), None, ImmediateJournal(), None, DebugTiming())
         finally:
             rz.internet.ClientService = orig
+        if policy is not None:
+            self.dw._set_boss(self.boss)
+        self.t_moods = []
+        if policy is not None:
+            t_close = self.boss._T.close
+
+            def spy_close(mood):         # what the Boss tells the Terminator (instance attribute: the class is untouched)
+                self.t_moods.append(mood)
+                return t_close(mood)
+            self.boss._T.close = spy_close
         self.rc = self.boss._RC
         self.rc._connector.world = self
         self.boss.start()
@@ -95,6 +153,32 @@ class World:
         self.welcome_rx = False
         self.open_sent = False
         self.bound = False
+
+    # ---- the requirements of C08 / C18 that the verifier states at the W / WS boundary, evaluated natively (delegated runs)
+    def on_sent(self, m):
+        t = m["type"]
+        self.all_sent.append(m)
+        if t == "claim":
+            self.claimed_maybe = True
+        if t == "open":
+            self.opened_maybe = True
+        if t == "close" and self.t_moods and m.get("mood") != self.t_moods[-1]:
+            self.post.append(("post:C08:mailbox-closed-with-boss-mood",
+                              f"server 'close' carries mood {m.get('mood')!r}, the Boss gave the Terminator {self.t_moods[-1]!r}"))
+
+    def on_w_call(self, meth, a):
+        seen = [n for n, _ in self.W.calls[:-1]]
+        if "closed" in seen:
+            self.post.append((f"post:C08:nothing-after-closed[{meth}]", f"W.{meth} after W.closed"))
+        if meth == "got_versions" and ("got_verifier" not in seen or "got_versions" in seen):
+            self.post.append(("post:C18:versions-after-verifier-once", f"W.got_versions after {seen}"))
+        if meth == "closed":
+            r = a[0]
+            normal = r == "happy" or type(r).__name__ in ("LonelyError", "WrongPasswordError", "ServerError", "WelcomeError")
+            if normal and (self.claimed_maybe or self.opened_maybe or not self.rc._stopping):
+                self.post.append(("post:C08:resources-freed-before-closed",
+                                  f"closed({r!r}) with claimed_maybe={self.claimed_maybe} opened_maybe={self.opened_maybe} "
+                                  f"rc_stopping={self.rc._stopping}"))
 
     # ---- bookkeeping of what the client sent on this connection
     def absorb(self):
@@ -160,7 +244,7 @@ def events():
     ev("helper.choose_words('purple-sausages')", hp, lambda w: w.helper.choose_words("purple-sausages"))
 
     def ws_open(w):
-        w.ws = FakeWS()
+        w.ws = FakeWS(w)
         w.seen = 0
         w.connected = True
         w.ever = True
@@ -215,6 +299,10 @@ def events():
     def reply(kind, **fields):
         def f(w):
             w.owed[kind_req[kind]] = False
+            if kind == "released":
+                w.claimed_maybe = False
+            if kind == "closed":
+                w.opened_maybe = False
             w.msg(type=kind, **fields)
         return f
     kind_req = {"claimed": "claim", "released": "release", "closed": "close", "allocated": "allocate", "nameplates": "list"}
@@ -238,6 +326,41 @@ def events():
            (lambda p, b: lambda w: w.msg(type="message", side="side2", phase=p, body=b, id="m"))(phase, body))
     ev("msg.message(side='sid\u00e9', phase='version')", om,
        lambda w: w.msg(type="message", side="sid\u00e9", phase="version", body="00", id="m"))
+    # ---- an honest peer (real SPAKE2 exchange, real encryption): needed to reach the key / verifier / versions / message
+    # callbacks of a delegated application
+    def peer_code(w):
+        for n, a in w.W.calls:
+            if n == "got_code":
+                return a[0]
+        return "4-purple-sausages"
+
+    def peer_pake(w):
+        from spake2 import SPAKE2_Symmetric
+        from wormhole.util import to_bytes, bytes_to_hexstr, dict_to_bytes
+        w.peer_sp = SPAKE2_Symmetric(to_bytes(peer_code(w)), idSymmetric=to_bytes(w.boss._appid))
+        body = dict_to_bytes({"pake_v1": bytes_to_hexstr(w.peer_sp.start())})
+        w.peer_pake_sent = True
+        w.msg(type="message", side="side2", phase="pake", body=bytes_to_hexstr(body), id="p1")
+    ev("peer.pake(honest)", lambda w: om(w) and not getattr(w, "peer_pake_sent", False), peer_pake)
+
+    def our_pake(w):
+        for m in w.all_sent:
+            if m["type"] == "add" and m["phase"] == "pake":
+                return m["body"]
+        return None
+
+    def peer_encrypted(phase, plaintext):
+        def f(w):
+            from wormhole.util import hexstr_to_bytes, bytes_to_hexstr, bytes_to_dict
+            from wormhole._key import derive_phase_key, encrypt_data
+            if getattr(w, "peer_key", None) is None:
+                w.peer_key = w.peer_sp.finish(hexstr_to_bytes(bytes_to_dict(hexstr_to_bytes(our_pake(w)))["pake_v1"]))
+            body = encrypt_data(derive_phase_key(w.peer_key, "side2", phase), plaintext)
+            w.msg(type="message", side="side2", phase=phase, body=bytes_to_hexstr(body), id="p-" + phase)
+        return f
+    pk = lambda w: om(w) and getattr(w, "peer_pake_sent", False) and our_pake(w) is not None     # noqa
+    ev("peer.version(honest)", pk, peer_encrypted("version", b'{"app_versions": {}}'))
+    ev("peer.message0(honest)", pk, peer_encrypted("0", b"hello"))
     ev("msg.error('crowded')", lambda w: cw(w) and w.bound, lambda w: w.msg(type="error", error="crowded", orig={}))
     ev("msg.ack", cw, lambda w: w.msg(type="ack", id="a"))
     return E
@@ -372,3 +495,231 @@ if __name__ == "__main__":
     ok, msg = search(rep)
     print(msg)
     print("REPRODUCED" if ok else "NOT-REPRODUCED")
+
+
+# ---------------------------------------------------------------------------------------------------------------------
+# delegated mode: the same search with a delegate that re-enters close() / send_message() from inside its callbacks
+
+HOSTILE = ("body=<", "sid\u00e9", "msg.ack", "completions", "msg.message(side='side2', phase='pake')")
+
+
+def signature(how, cls, msg, tb):
+    import re as _re
+    if cls == "NoTransition":
+        mo = _re.search(r"bound method (\w+)\.(\w+) of .*bound method \w+\.(\w+) of", msg.replace("\n", " "))
+        if mo:
+            return f"nodom:{mo.group(1)}.{mo.group(3)}@{mo.group(2)}"
+        mo = _re.findall(r"(\w+)\.(\w+) at ", msg)
+        return "nodom:" + "/".join(".".join(x) for x in mo)
+    if cls == "AssertionError":
+        mo = _re.findall(r'File "[^"]*/(\w+\.py)", line \d+, in (\w+)', tb)
+        return "assert@" + (":".join(mo[-1]) if mo else "?")
+    return f"exc:{cls}"
+
+
+def failures_of(w, fails, last_event):
+    out = []
+    for how, cls, msg, tb, mro in fails:
+        allowed = ()
+        for pre, al in API_ERRORS.items():
+            if last_event.startswith(pre):
+                allowed = al
+        if how == "raised" and cls in allowed:
+            continue
+        out.append((signature(how, cls, msg, tb), f"{how} {cls}: {msg[:200]}\n{tb}"))
+    for name, detail in (w.post if w is not None else []):
+        out.append((name, detail))
+    if w is not None:
+        for name, a in w.W.calls:
+            if name == "closed" and not (a[0] == "happy" or type(a[0]).__name__ in DOCUMENTED):
+                out.append(("post:C14:verdict-is-documented", f"closed({a[0]!r})"))
+    return out
+
+
+def run_history_delegated(names, policy, defer_stop=False):
+    global EVENTS
+    if EVENTS is None:
+        EVENTS = events()
+    table = {n: (l, d) for n, l, d in EVENTS}
+    fails = []
+
+    def observer(ev):
+        if ev.get("isError"):
+            f = ev.get("failure")
+            if f is not None:
+                fails.append(("logged", f.type.__name__, str(f.value)[:600], tb_tail(f), [c.__name__ for c in f.type.__mro__]))
+    txlog.addObserver(observer)
+    w = None
+    try:
+        w = World(defer_stop, policy)
+        for n in names:
+            legal, do = table[n]
+            if not legal(w):
+                return w, fails, False
+            try:
+                do(w)
+            except Exception as e:      # noqa
+                allowed = [al for pre, al in API_ERRORS.items() if n.startswith(pre)]
+                if not (allowed and type(e).__name__ in allowed[0]):      # a documented usage error of this very call
+                    fails.append(("raised", type(e).__name__, str(e)[:600], "".join(traceback.format_tb(e.__traceback__)[-3:]),
+                                  [c.__name__ for c in type(e).__mro__]))
+            w.clock.advance(0)
+            w.absorb()
+        return w, fails, True
+    finally:
+        txlog.removeObserver(observer)
+
+
+def search_delegated(policy, maxdepth=9, budget_s=120, defer_stops=(False, True), skip=HOSTILE, prefix=(), clauses=(),
+                     stats=None):
+    """breadth-first over legal histories with the given re-entry policy; returns {signature: (history, defer_stop, detail)}
+    with the shortest history found for every distinct failure (the search does not continue beyond a failure)"""
+    global EVENTS
+    EVENTS = events()
+    names = [n for n, l, d in EVENTS if not any(s in n for s in skip)]
+    found = {}
+    t0 = time.time()
+    for defer_stop in defer_stops:
+        seen = set()
+        q = deque([list(prefix)])
+        while q and time.time() - t0 < budget_s * (1 + defer_stops.index(defer_stop)) / len(defer_stops):
+            h = q.popleft()
+            if len(h) >= maxdepth + len(prefix):
+                continue
+            for n in names:
+                h2 = h + [n]
+                w, fails, legal = run_history_delegated(h2, policy, defer_stop)
+                if not legal:
+                    continue
+                fl = failures_of(w, fails, n)
+                if fl:
+                    for sig, detail in fl:
+                        if sig not in found or len(found[sig][0]) > len(h2):
+                            found[sig] = (h2, defer_stop, detail, list(w.W.reentered))
+                    continue
+                if clauses:
+                    # clauses [[literal, value], [literal, value]] (= not both) tested on this natively reached state
+                    val = native_valuation(w)
+                    if stats is not None:
+                        stats["states"] = stats.get("states", 0) + 1
+                    for c in clauses:
+                        if all(l in val and val[l] == x for l, x in c):
+                            sig = "clause-violated:" + " & ".join(f"{l}=={x}" for l, x in c)
+                            if sig not in found or len(found[sig][0]) > len(h2):
+                                found[sig] = (h2, defer_stop, "reached natively", list(w.W.reentered))
+                fp = w.fingerprint() + (getattr(w, "peer_pake_sent", False), getattr(w, "peer_key", None) is not None,
+                                        tuple(sorted({c for c, _ in w.W.calls})), w.claimed_maybe, w.opened_maybe,
+                                        len(w.W.reentered))
+                if fp in seen:
+                    continue
+                seen.add(fp)
+                q.append(h2)
+    return found
+
+
+def native_valuation(w):
+    """the literals of the cluster's invariant template that can be read off the real objects / this harness's bookkeeping
+    (used to test, on natively reached states, clauses that would exclude a counterexample-to-induction)"""
+    b = w.boss
+    v = {}
+    objs = dict(B=b, N=b._N, M=b._M, S=b._S, O=b._O, K=b._K, SK=b._K._SK, R=b._R, L=b._L, A=b._A, I=b._I, C=b._C, T=b._T)
+    for nm, o in objs.items():
+        tr = getattr(o, type(o).m._symbol, None)
+        v[nm + ".state"] = (tr._state if tr is not None else type(o).m._automaton.initialState).method.__name__
+
+    def fld(name, obj, attr):
+        x = getattr(obj, attr, None)
+        v[name + ".isnone"] = x is None
+        v[name + ".falsy"] = not x
+    fld("N._nameplate", b._N, "_nameplate")
+    fld("S._key", b._S, "_key")
+    fld("R._key", b._R, "_key")
+    fld("M._mailbox", b._M, "_mailbox")
+    fld("I._nameplate", b._I, "_nameplate")
+    v["M.mood"] = getattr(b._M, "_mood", None) or "none"
+    v["RC._stopping"] = bool(w.rc._stopping)
+    v["RC._ws.isnone"] = w.rc._ws is None
+    calls = [n for n, _ in w.W.calls]
+    g = {"connected": w.connected, "w_closed": "closed" in calls, "api_closed": w.api_closed, "service_stopped": w.service_stopped,
+         "claimed_maybe": w.claimed_maybe, "opened_maybe": w.opened_maybe, "w_code": "got_code" in calls, "w_key": "got_key" in calls,
+         "w_verifier": "got_verifier" in calls, "w_versions": "got_versions" in calls, "bound": w.bound,
+         "welcome_rx": w.welcome_rx, "open_sent": w.open_sent, "release_owed": w.owed["release"], "close_owed": w.owed["close"],
+         "claim_owed": w.owed["claim"], "list_owed": w.owed["list"], "allocate_owed": w.owed["allocate"],
+         "helper_given": w.helper is not None, "stopped_done": w.stopped_done, "rc_stop_called": bool(w.rc._stopping),
+         "close_mood": w.t_moods[-1] if w.t_moods else "none",
+         "stopped_pending": w.rc._connector.stop_d is not None and not w.rc._connector.stop_d.called}
+    if w.rc._stopping and not g["stopped_pending"]:
+        # StubService.stopService() completed synchronously: the verifier's `service.stopped` event has happened
+        g["service_stopped"] = g["stopped_done"] = True
+    r = b._result
+    g["result_kind"] = {"str": "happy" if r == "happy" else "empty", "LonelyError": "lonely", "WrongPasswordError": "scary",
+                        "ServerError": "errory", "WelcomeError": "unwelcome", "ServerConnectionError": "conn_error"}.get(
+                            type(r).__name__, "other")
+    for k, x in g.items():
+        v["ghost." + k] = x
+    return v
+
+
+def random_walks_delegated(seed, seconds, maxlen=30, clauses=(), skip=HOSTILE, weight=None):
+    """random legal histories (incremental: one World per walk) with a random re-entry policy per walk; complements the
+    breadth-first search with long histories (reconnects, full close-down).  Returns (found, walks, states)."""
+    import random
+    global EVENTS
+    EVENTS = events()
+    evs = [(n, l, d) for n, l, d in EVENTS if not any(s in n for s in skip)]
+    rnd = random.Random(seed)
+    cbs = ["got_welcome", "got_code", "got_key", "got_verifier", "got_versions", "received"]
+    found = {}
+    t0 = time.time()
+    walks = states = 0
+    fails = []
+
+    def observer(ev):
+        if ev.get("isError"):
+            f = ev.get("failure")
+            if f is not None:
+                fails.append(("logged", f.type.__name__, str(f.value)[:600], tb_tail(f), [c.__name__ for c in f.type.__mro__]))
+    txlog.addObserver(observer)
+    try:
+        while time.time() - t0 < seconds:
+            walks += 1
+            policy = {c: rnd.choice(["close", "send"]) for c in rnd.sample(cbs, rnd.choice([1, 1, 2, 3]))}
+            w = World(rnd.random() < 0.5, policy)
+            h = []
+            del fails[:]
+            # bias towards making progress: an honest peer and a conformant server
+            for _ in range(maxlen):
+                legal = [(n, d) for n, l, d in evs if l(w)]
+                if not legal:
+                    break
+                weights = [weight(n) if weight is not None else
+                           4 if n.startswith(("peer.", "msg.claimed", "msg.released", "msg.closed", "msg.welcome({})", "ws.open"))
+                           else 1 for n, _ in legal]
+                n, d = rnd.choices(legal, weights)[0]
+                h.append(n)
+                try:
+                    d(w)
+                except Exception as e:      # noqa
+                    allowed = [al for pre, al in API_ERRORS.items() if n.startswith(pre)]
+                    if not (allowed and type(e).__name__ in allowed[0]):
+                        fails.append(("raised", type(e).__name__, str(e)[:600],
+                                      "".join(traceback.format_tb(e.__traceback__)[-3:]), [c.__name__ for c in type(e).__mro__]))
+                w.clock.advance(0)
+                w.absorb()
+                fl = failures_of(w, fails, n)
+                if fl:
+                    for sig, detail in fl:
+                        if sig not in found or len(found[sig][0]) > len(h):
+                            found[sig] = (list(h), w.defer_stop, detail, list(w.W.reentered), dict(policy))
+                    break
+                states += 1
+                if clauses:
+                    val = native_valuation(w)
+                    for c in clauses:
+                        if all(x in val and val[x] == y for x, y in c):
+                            sig = "clause-violated:" + " & ".join(f"{x}=={y}" for x, y in c)
+                            if sig not in found or len(found[sig][0]) > len(h):
+                                found[sig] = (list(h), w.defer_stop, "reached natively", list(w.W.reentered), dict(policy))
+    finally:
+        txlog.removeObserver(observer)
+    return found, walks, states
